@@ -226,6 +226,13 @@ def gen_case(rng):
         return ("call", f, [A0]), d
     if f == "map":
         d["a0"] = rng.choice([arr_obj(rng, "n"), arr_n(rng), [any_val(rng) for _ in range(rng.randrange(0, 6))]])
+        if r < 0.4:
+            # null ELEMENTS: the expression reference is applied to them like to any other element (`type(null)` is "null", not null)
+            d["a0"] = [None if rng.random() < 0.4 else x for x in d["a0"]] + [None]
+            rng.shuffle(d["a0"])
+            body = rng.choice([("call", "type", [("cur",)]), ("call", "to_array", [("cur",)]), ("call", "to_string", [("cur",)]), ("call", "not_null", [("cur",), ("field", "zz")]),
+                               ("call", "type", [("field", "k")]), ("cur",)])
+            return ("call", "map", [("expref", body), A0]), d
         body = rng.choice([("cur",), ("field", "k"), ("path", "o", "k"), ("call", "type", [("cur",)]), ("call", "to_array", [("cur",)])])
         return ("call", "map", [("expref", body), A0]), d
     if f in ("max_by", "min_by", "sort_by"):
